@@ -18,10 +18,11 @@ Record cw := mkCw {
   cw_buf : list citem;        (* w.buffer *)
   cw_lat : list citem;        (* w.latestPubs *)
   cw_timer : option nat;      (* identity of the active timer (w.timer / w.timerStop), if any *)
-  cw_latestOnly : bool
+  cw_latestOnly : bool;
+  cw_closed : bool            (* w.closed: set by close; Add on a closed writer drops the item *)
 }.
 
-Definition cw_new : cw := mkCw [] [] None false.
+Definition cw_new : cw := mkCw [] [] None false false.
 
 (* for i, existing := range latestPubs { if existing.Key == item.Key { delete i; break } } *)
 Fixpoint remove_key (k : N) (l : list citem) : list citem :=
@@ -37,29 +38,34 @@ Definition cw_flush (w : cw) : cw * option (list citem) :=
   | _, _ =>
       let batch := if cw_latestOnly w && negb (match cw_lat w with [] => true | _ => false end)
                    then cw_buf w ++ cw_lat w else cw_buf w in
-      (mkCw [] [] (cw_timer w) (cw_latestOnly w), Some batch)
+      (mkCw [] [] (cw_timer w) (cw_latestOnly w) (cw_closed w), Some batch)
   end.
 
-Definition cw_stop (w : cw) : cw := mkCw (cw_buf w) (cw_lat w) None (cw_latestOnly w).
+Definition cw_stop (w : cw) : cw := mkCw (cw_buf w) (cw_lat w) None (cw_latestOnly w) (cw_closed w).
 
 (* func (w *channelWriter) Add(item, config); [tm] = identity for a timer armed by this call.
-   Result: new state, batch flushed (if any), whether a waitTimer goroutine was started. *)
-Definition cw_add (c : bcfg) (tm : nat) (w : cw) (x : citem) : cw * option (list citem) * bool :=
+   Result: new state, batch flushed (if any), whether a waitTimer goroutine was started.
+   [guard] = the `if w.closed { return }` at the top of Add (true = the code; false = the code before
+   the fix "channelWriter drops items added after it was closed", kept only to state what it fixed). *)
+Definition cw_add_gen (guard : bool) (c : bcfg) (tm : nat) (w : cw) (x : citem) : cw * option (list citem) * bool :=
+  if guard && cw_closed w then (w, None, false) else
   let '(buf, lat) :=
     if b_latest c && ci_pub x then (cw_buf w, remove_key (ci_key x) (cw_lat w) ++ [x])
     else (cw_buf w ++ [x], cw_lat w) in
   let total := length buf + length lat in
   let arm := b_delay c && (total =? 1) && (match cw_timer w with None => true | Some _ => false end) in
-  let w1 := mkCw buf lat (if arm then Some tm else cw_timer w) (b_latest c) in
+  let w1 := mkCw buf lat (if arm then Some tm else cw_timer w) (b_latest c) (cw_closed w) in
   if (0 <? b_max c)%Z && (b_max c <=? Z.of_nat total)%Z then
     let '(w2, b) := cw_flush (cw_stop w1) in (w2, b, arm)
   else (w1, None, arm).
+
+Definition cw_add := cw_add_gen true.
 
 (* waitTimer, "case <-tm.C" branch *)
 Definition cw_fire (tm : nat) (w : cw) : cw * option (list citem) :=
   match cw_timer w with
   | Some t => if t =? tm then
-                let '(w1, b) := cw_flush w in (mkCw (cw_buf w1) (cw_lat w1) None (cw_latestOnly w1), b)
+                let '(w1, b) := cw_flush w in (mkCw (cw_buf w1) (cw_lat w1) None (cw_latestOnly w1) (cw_closed w1), b)
               else (w, None)
   | None => (w, None)
   end.
@@ -68,7 +74,7 @@ Definition cw_fire (tm : nat) (w : cw) : cw * option (list citem) :=
 Definition cw_close (flush : bool) (w : cw) : cw * option (list citem) :=
   let w1 := cw_stop w in
   let '(w2, b) := if flush then cw_flush w1 else (w1, None) in
-  (mkCw [] [] (cw_timer w2) (cw_latestOnly w2), b).
+  (mkCw [] [] (cw_timer w2) (cw_latestOnly w2) true, b).
 
 (* one channelWriter on its own: every operation is one critical section of w.mu *)
 Inductive cwop := CAdd (x : citem) | CFire (tm : nat) | CClose (flush : bool).
@@ -125,7 +131,7 @@ Definition close_mapped (flush : bool) (s : pst) : list (nat * cw) * list (N * n
                end) (p_map s) (p_inst s, p_out s).
 
 (* None = the label is not enabled *)
-Definition pstep (cf : N -> bcfg) (s : pst) (l : plabel) : option pst :=
+Definition pstep_gen (guard : bool) (cf : N -> bcfg) (s : pst) (l : plabel) : option pst :=
   match l with
   | PGet t ch =>
       match lookup (p_refs s) t with
@@ -144,7 +150,7 @@ Definition pstep (cf : N -> bcfg) (s : pst) (l : plabel) : option pst :=
           match lookup (p_inst s) i with
           | Some w =>
               let tm := p_next s in
-              let '(w1, b, armed) := cw_add (cf ch) tm w x in
+              let '(w1, b, armed) := cw_add_gen guard (cf ch) tm w x in
               Some (mkP (p_map s) ((i, w1) :: p_inst s) (p_ich s) (remove_k (p_refs s) t)
                         (if armed then (tm, i) :: p_timers s else p_timers s)
                         (if armed then S tm else tm) (emit (p_out s) ch i b))
@@ -193,8 +199,12 @@ Definition pstep (cf : N -> bcfg) (s : pst) (l : plabel) : option pst :=
       Some (mkP (p_map s) insts (p_ich s) (p_refs s) (p_timers s) (p_next s) out)
   end.
 
-Fixpoint prun (cf : N -> bcfg) (s : pst) (sched : list plabel) : option pst :=
+Definition pstep := pstep_gen true.
+
+Fixpoint prun_gen (guard : bool) (cf : N -> bcfg) (s : pst) (sched : list plabel) : option pst :=
   match sched with
   | [] => Some s
-  | l :: sched' => match pstep cf s l with Some s1 => prun cf s1 sched' | None => None end
+  | l :: sched' => match pstep_gen guard cf s l with Some s1 => prun_gen guard cf s1 sched' | None => None end
   end.
+
+Definition prun := prun_gen true.
